@@ -277,7 +277,7 @@ Lemma first_match : forall (q : list icmd) n i c, In (i, c) q -> c_prompt c = n 
 Proof.
   induction q as [|[j d] q IH]; intros n i c Hin Hp; [contradiction|].
   destruct (Z.eq_dec (c_prompt d) n) as [E|E].
-  - exists [], j, d, q. repeat split; auto. intros ? ? [].
+  - exists [], j, d, q. repeat split; auto.
   - destruct Hin as [Hin|Hin]; [inversion Hin; subst; contradiction|].
     destruct (IH n i c Hin Hp) as (front & j1 & c1 & back & -> & H1 & H2).
     exists ((j, d) :: front), j1, c1, back. repeat split; auto.
